@@ -33,7 +33,7 @@ pub const PARAM_SETS: &[(u32, u32, u32)] = &[
     (13, 53, 16),
     (251, 503, 4),
     (257, 1543, 64),
-    (32749, 65499, 4), // witness field; p = 2q+1
+    (23099, 46199, 4), // witness field, p = 2q+1 (products fit TLC's 32-bit integers)
 ];
 
 fn is_prime(n: u32) -> bool {
